@@ -103,6 +103,7 @@ Width == [int8 |-> Part(N("-128"), N("127")), int16 |-> Part(N("-32768"), N("327
 WidthOf(k) == IF k = "decimal64" THEN Width.int64 ELSE Width[k]
 \* "max" of an unrestricted string length (RFC 6020 leaves the maximum to the implementation; only used as "larger than any probe")
 MaxLen == N("18446744073709551615")
+ImplMaxLen == N("4294967295")
 KindClass(k) == IF k \in SIntKinds THEN "int" ELSE IF k \in UIntKinds THEN "uint" ELSE k
 
 InParts(x, parts) == \E i \in 1..Len(parts) : Le(parts[i].lo, x) /\ Le(x, parts[i].hi)
@@ -169,10 +170,15 @@ PatCat(kids, k) == IF k > Len(kids) THEN << >>
 RECURSIVE PatAlt(_, _)
 PatAlt(kids, k) == IF k > Len(kids) THEN << >> ELSE (IF k > 1 THEN <<124>> ELSE << >>) \o PatText(kids[k]) \o PatAlt(kids, k + 1)
 RECURSIVE ClsText(_, _)
+\* inside a bracket expression \ ] [ - ^ are written escaped (single character escapes of XSD, literals in RE2);
+\* ( ) | $ . * + ? { } are ordinary characters there
+ClsCh(c) == IF c \in {92, 93, 91, 45, 94} THEN <<92, c>> ELSE <<c>>
 ClsText(rs, k) == IF k > Len(rs) THEN << >>
-                  ELSE (IF rs[k][1] = rs[k][2] THEN <<rs[k][1]>> ELSE <<rs[k][1], 45, rs[k][2]>>) \o ClsText(rs, k + 1)
+                  ELSE (IF rs[k][1] = rs[k][2] THEN ClsCh(rs[k][1]) ELSE ClsCh(rs[k][1]) \o <<45>> \o ClsCh(rs[k][2])) \o ClsText(rs, k + 1)
+\* outside brackets the metacharacters ( ) | \ . * + ? [ ] { } ^ are written escaped
+MetaChars == {40, 41, 124, 92, 46, 42, 43, 63, 91, 93, 123, 125, 94}
 PatText(re) ==
-  CASE re.op = "lit" -> <<re.c>>
+  CASE re.op = "lit" -> IF re.c \in MetaChars THEN <<92, re.c>> ELSE <<re.c>>
     [] re.op = "dot" -> <<46>>
     [] re.op = "cls" -> <<91>> \o (IF re.neg THEN <<94>> ELSE << >>) \o ClsText(re.rs, 1) \o <<93>>
     [] re.op = "cat" -> PatCat(re.kids, 1)
@@ -307,6 +313,10 @@ ApplyLevel(ch, t, L, first) ==
                        !.def = IF L.hasDef THEN L.def ELSE @]
       \* decimal64 parts exactly one unit apart hold the same values as one part; whether a derived
       \* part may span them is judged as "no" (parts of a decimal64 range are never contiguous)
+      \* RFC 6020 leaves the longest string to the implementation: a length accepted only because the base is an
+      \* unrestricted string, with an explicit bound above 2^32-1, is not judged
+      lnBig == ln.ok /\ \E i \in 1..Len(L.len) : \E x \in {L.len[i].lo, L.len[i].hi} :
+                   x \notin {MinT, MaxT} /\ CanonInt(x) /\ Lt(ImplMaxLen, ParseInt(x).v)
       badDef == t3.hasDef /\ ~Accepts(t3, t3.def)
       defJ == ~t3.hasDef \/ ProbeJudged(t3, t3.def)
   IN IF wrong THEN Res(FALSE, TRUE, "restriction-kind", t)
@@ -314,8 +324,8 @@ ApplyLevel(ch, t, L, first) ==
      ELSE IF ~ms.ok THEN Res(FALSE, ms.j, "member:" \o ms.why, t)
      ELSE IF ~rn.ok THEN Res(FALSE, rn.syn, "range:" \o rn.why, t)
      ELSE IF ~ln.ok THEN Res(FALSE, ln.syn, "length:" \o ln.why, t)
-     ELSE IF badDef THEN Res(FALSE, ms.j /\ defJ, "default-rejected", t3)
-     ELSE Res(TRUE, ms.j /\ defJ, "ok", t3)
+     ELSE IF badDef THEN Res(FALSE, ms.j /\ defJ /\ ~lnBig, "default-rejected", t3)
+     ELSE Res(TRUE, ms.j /\ defJ /\ ~lnBig, "ok", t3)
 CompileMembers(ch, members, i) ==
   IF i > Len(members) THEN Res(TRUE, TRUE, "ok", << >>)
   ELSE LET r == CompileChain([members[i] EXCEPT !.idents = ch.idents, !.mod = ch.mod]) IN
